@@ -56,6 +56,12 @@ def E(expr):
 
 
 class C14(Property):
+    fuzz_target = 'fuzz_args'
+
+    def fuzz_seeds(self):
+        from ..fuzz import program_seeds
+        return program_seeds()
+
     id = 'C14'
     configs = ('B',)
     bytes_per_case = 64
